@@ -7,7 +7,9 @@
     refusal at the proceed callback or at respond() with every defined J1939 error code and undefined ones, an
     absent server; validated by TLC against Dm14Trace.tla: proceed/notify/DM16 only after the right key, the
     exception names the error code the server sent, the no-response exception comes exactly at the caller's time-out,
-    and after every failure the next operation runs as the reference model says (it succeeds if everybody is willing).
+    and after every failure the next operation runs as the reference model says (it succeeds if everybody is willing);
+    histories with a slow serving application (respond() after the caller's time-out: the abandoned transaction is
+    completed in the background, the following operations get their own data).
 """
 import common
 import gen_dm14
@@ -35,6 +37,10 @@ def run(chk, replay):
     scs = [gen_dm14.failing(chk.seed * 2750159 + i) for i in range(300 if quick else 5000)]
     traces = [scen_dm14.run(sc)[0] for sc in scs]
     chk.validate("Dm14Trace.tla", "Dm14Trace.cfg", traces, "main", nontrivial=nontrivial)
+    # a slow serving application: the answer comes after the caller's time-out
+    scs = [gen_dm14.late(chk.seed * 1299709 + i) for i in range(120 if quick else 2000)]
+    traces = [scen_dm14.run(sc)[0] for sc in scs]
+    chk.validate("Dm14Trace.tla", "Dm14Trace.cfg", traces, "late", nontrivial=nontrivial)
 
 
 if __name__ == "__main__":
